@@ -29,12 +29,33 @@ open MlModel.Generated MlModel.Generated.Wiring MlModel.GenWiring MlModel.Agg.Co
 /-- **`ClassificationAggFn.__init__` as translated = the hand model's `constructWrapper`**: `average == SAMPLES`
 selects the samplewise aggregate (a `k_list` is refused), otherwise a truthy `k_list` selects the top-k aggregate,
 and every keyword reaches the constructor unchanged -/
-theorem C07_gen_wiring_init (a : RawCfg) : evalInit a initTree = constructWrapper a :=
-  evalInit_initTree a
+theorem C07_gen_wiring_init (a : RawCfg) : evalInit a initTree = constructWrapper a := by
+  cases a with
+  | mk metrics single posLabel inputType average vocab kList =>
+    by_cases hs : average = "samples"
+    · subst hs
+      cases kList <;>
+        simp [initTree, evalInit, evalCond, evalSrc, rawEnv, truthy, kwRaw, setKw, ctorDefault, construct,
+          constructWrapper, errOf, List.foldlM, Option.bind, constructSamplewise]
+    · have hb : (average == "samples") = false := by simpa using hs
+      cases kList <;>
+        simp [initTree, evalInit, evalCond, evalSrc, rawEnv, truthy, kwRaw, setKw, ctorDefault, construct,
+          constructWrapper, errOf, List.foldlM, Option.bind, hb]
 
 /-- **`utils.verify_input` as translated = `verifyInput`** -/
-theorem C07_gen_wiring_verify (r : RawCfg) (b : Batch) : evalVerify r b verifyTree = verifyInput r b :=
-  evalVerify_verifyTree r b
+theorem C07_gen_wiring_verify (r : RawCfg) (b : Batch) : evalVerify r b verifyTree = verifyInput r b := by
+  cases r with
+  | mk metrics single posLabel inputType average vocab kList =>
+    by_cases ha : average = "binary" <;> by_cases hi : inputType = "binary"
+    · subst ha; subst hi
+      simp [verifyTree, evalVerify, evalCond, evalSrc, rawEnv, kwRaw, setKw, verifyInput, List.foldlM, Option.bind]
+    · have hb : (inputType == "binary") = false := by simpa using hi
+      subst ha
+      simp [verifyTree, evalVerify, evalCond, evalSrc, rawEnv, kwRaw, setKw, verifyInput, List.foldlM, Option.bind, hb]
+    · have hb : (average == "binary") = false := by simpa using ha
+      simp [verifyTree, evalVerify, evalCond, evalSrc, rawEnv, kwRaw, setKw, verifyInput, List.foldlM, Option.bind, hb]
+    · have hb : (average == "binary") = false := by simpa using ha
+      simp [verifyTree, evalVerify, evalCond, evalSrc, rawEnv, kwRaw, setKw, verifyInput, List.foldlM, Option.bind, hb]
 
 /-! ## the one-shot functions -/
 
@@ -89,7 +110,7 @@ theorem C07_gen_fnapi_classification (sqrt : Rat → Rat) (w : Wrapper) (hw : w 
   have hstd := C07_gen_fnapi_classification_plumbing w hw
   rw [hm] at hstd
   have h1 : evalWrapper sqrt w a b = oneShot sqrt r b :=
-    evalWrapper_std sqrt w _ hstd a b [m.value] true rfl
+    evalWrapper_std sqrt w _ hstd a b [m.value] true C07_gen_wiring_init C07_gen_wiring_verify rfl
   have h2 := C07_classification_function_api sqrt r b
   exact ⟨h1, fun h => h1.trans (h2.1 h), fun h => h1.trans (h2.2 h)⟩
 
@@ -99,7 +120,7 @@ theorem C07_gen_fnapi_classification_metrics (sqrt : Rat → Rat) (w : Wrapper) 
     evalWrapper sqrt w a b = oneShot sqrt a b := by
   have hstd := C07_gen_fnapi_classification_plumbing w hw
   rw [hm] at hstd
-  have := evalWrapper_std sqrt w _ hstd a b a.metrics a.single rfl
+  have := evalWrapper_std sqrt w _ hstd a b a.metrics a.single C07_gen_wiring_init C07_gen_wiring_verify rfl
   simpa using this
 
 /-- non-vacuity: `precision` is in the table and requests `PRECISION`; `classification_metrics` passes `metrics` -/
